@@ -84,13 +84,14 @@ fn check(v: Variant, ops: &Vec<Op>, max_len: usize) -> PResult {
 // ---------------------------------------------------------------------------
 // Bounded exhaustive schedule enumeration (uses the clone hook)
 
-fn explore<P: Proto>(
+pub fn explore<P: Proto>(
     strip: bool,
     chunks: usize,
     split: usize,
     max_depth: u32,
     states: &mut u64,
     transitions: &mut u64,
+    at_state: &mut dyn FnMut(&Sim<P>) -> Result<(), String>,
 ) -> Result<(), String>
 where
     P::Conn: Sized,
@@ -109,7 +110,7 @@ where
     sim.step(&Op::Flush { side: 0 }).map_err(|f| f.msg)?;
     // DFS over {deliver k, drop k, dup k} for every in-flight datagram and {tick at deadline}
     let mut seen: std::collections::HashSet<u64> = std::collections::HashSet::new();
-    dfs(&mut sim, 0, max_depth, &mut seen, states, transitions)
+    dfs(&mut sim, 0, max_depth, &mut seen, states, transitions, at_state)
 }
 
 fn sim_key<P: Proto>(sim: &Sim<P>) -> u64 {
@@ -134,11 +135,13 @@ fn dfs<P: Proto>(
     seen: &mut std::collections::HashSet<u64>,
     states: &mut u64,
     transitions: &mut u64,
+    at_state: &mut dyn FnMut(&Sim<P>) -> Result<(), String>,
 ) -> Result<(), String> {
     if !seen.insert(sim_key(sim)) {
         return Ok(());
     }
     *states += 1;
+    at_state(sim).map_err(|e| format!("schedule exploration depth {}: {}", depth, e))?;
     if depth >= max_depth {
         return Ok(());
     }
@@ -169,7 +172,7 @@ fn dfs<P: Proto>(
             .step(&m)
             .map_err(|f| format!("schedule exploration depth {}: {:?}: [{}] {}", depth, m, f.oracle, f.msg))?;
         *transitions += 1;
-        dfs(&mut child, depth + 1, max_depth, seen, states, transitions)?;
+        dfs(&mut child, depth + 1, max_depth, seen, states, transitions, at_state)?;
     }
     if let Some(t) = deadline {
         let mut child = sim.snapshot();
@@ -182,7 +185,7 @@ fn dfs<P: Proto>(
                 .map_err(|f| format!("schedule exploration depth {}: tick: [{}] {}", depth, f.oracle, f.msg))?;
         }
         *transitions += 1;
-        dfs(&mut child, depth + 1, max_depth, seen, states, transitions)?;
+        dfs(&mut child, depth + 1, max_depth, seen, states, transitions, at_state)?;
     }
     Ok(())
 }
@@ -225,8 +228,9 @@ pub fn run(ctx: &Ctx) {
             |ops: &Vec<Op>| check(v, ops, max_len),
         );
     }
-    if !ctx.quick() || std::env::var_os("VERIF_C01_DFS").is_some() {
+    {
         // bounded exhaustive schedule enumeration
+        let depth_cfg = ctx.sz(9, 12) as u32;
         for (vi, v) in VARIANTS.iter().enumerate() {
             for split in 1..=3usize {
                 let section = format!("schedules/{}/split{}", v.name(), split);
@@ -238,11 +242,11 @@ pub fn run(ctx: &Ctx) {
                     |_| {
                         let mut st = 0;
                         let mut tr = 0;
-                        let depth = 7;
+                        let depth = depth_cfg;
                         let r = match v {
-                            Variant::V6Token => explore::<P6>(false, 3, split, depth, &mut st, &mut tr),
-                            Variant::V6NoToken => explore::<P6>(true, 3, split, depth, &mut st, &mut tr),
-                            Variant::V7 => explore::<P7>(false, 3, split, depth, &mut st, &mut tr),
+                            Variant::V6Token => explore::<P6>(false, 3, split, depth, &mut st, &mut tr, &mut |_| Ok(())),
+                            Variant::V6NoToken => explore::<P6>(true, 3, split, depth, &mut st, &mut tr, &mut |_| Ok(())),
+                            Variant::V7 => explore::<P7>(false, 3, split, depth, &mut st, &mut tr, &mut |_| Ok(())),
                         };
                         *counts.lock().unwrap() = (st, tr);
                         r.map(|()| true)
@@ -250,7 +254,8 @@ pub fn run(ctx: &Ctx) {
                     |_| json!({"scenario": "3 vital chunks", "split": split, "variant": v.name()}),
                 );
                 let (st, tr) = *counts.lock().unwrap();
-                ctx.extra(&format!("dfs_{}_{}", vi, split), json!({"states": st, "transitions": tr}));
+                ctx.extra(&format!("dfs_{}_split{}", v.name(), split), json!({"states": st, "transitions": tr, "depth": depth_cfg}));
+                let _ = vi;
             }
         }
     }
